@@ -17,8 +17,9 @@
 (* blocks (harness/mat + harness/walletledx/oracle.go, using only          *)
 (* go.sia.tech/core): parent, height, validity, the heavier relation of    *)
 (* the real states and, per block b, FOR ONE ADDRESS (the wallet's):       *)
-(*   wc[b]  outputs created paying the address   <<id, value, maturity>>   *)
-(*   ws[b]  outputs of the address spent          (same triples)           *)
+(*   wc[b]  outputs created paying the address                             *)
+(*          <<id, value, maturity height, leaf index>>                     *)
+(*   ws[b]  outputs of the address spent          (same tuples)            *)
 (*   we[b]  events [id, in, out, tag]                                      *)
 (* Values are residues modulo P (TLC integers are 32 bit; sums commute     *)
 (* with the reduction, the exact equation is checked on the real wallet).  *)
@@ -30,6 +31,17 @@
 (* only inside transactions that move the wallet's siacoins) and "renewal" *)
 (* (v2 renewal payouts keyed on the contract's renter/host address while   *)
 (* the final outputs may pay any address).                                 *)
+(*                                                                         *)
+(* The manager option of the world is part of the tree record: pinMode     *)
+(* ("" or the permutation chain.WithExpiringContractOrder pins) and pin[b],*)
+(* the order of the v1 contracts expiring in block b.  The accumulator is  *)
+(* below the abstraction; what the option decides at this level is the     *)
+(* LEAF INDEX of every missed-proof output of such a block, and the leaf   *)
+(* indices in wc/ws are those of the pinned order (computed by the ledger  *)
+(* that applies the block with exactly that order).  A wallet fed an       *)
+(* update computed with another order stores other leaf indices: the state *)
+(* comparison of Leg R / Leg T rejects it; that every stored proof verifies*)
+(* at the tip is the audited boolean of the harness (ProofsVerify).        *)
 (*                                                                         *)
 (* One action per call of the real code:                                   *)
 (*   Adopt(to)    AddBlocks made `to` the tip                              *)
@@ -53,7 +65,7 @@ VARIABLES
     t,          \* index of the tree (fixed after Init)
     mem,        \* the manager's tip (block id)
     wTip,       \* block the update stream left the wallet at (0 = nothing processed yet)
-    wUtxo,      \* the store's unspent outputs: set of <<id, value, maturity>>
+    wUtxo,      \* the store's unspent outputs: set of <<id, value, maturity, leaf index>>
     wEv,        \* the store's events: set of <<event id, block, in, out>>
     wOk,        \* FALSE once the reference store would have panicked (spent output absent, duplicate)
     act         \* label of the last action (hidden by VIEW)
@@ -183,6 +195,12 @@ NeverPanics == wOk
 \* reverted blocks, nothing missing, maturity heights and values included
 PosExact ==
     LET tr == Truth(wTip) IN wUtxo = tr.utxo /\ wEv = tr.ev
+
+\* the outputs of one chain occupy distinct leaves of its accumulator (and the world's pin lists,
+\* where present, are orders of two or more contracts without repetition)
+LeavesDistinct == \A x, y \in wUtxo : x[4] = y[4] => x = y
+PinShape == \A b \in Nodes : LET p == T.pin[b] IN
+    Len(p) # 1 /\ (Len(p) > 0 => T.pinMode # "") /\ \A i, j \in 1..Len(p) : p[i] = p[j] => i = j
 
 AtTip == wTip = mem
 \* C06 proper, at wTip = tip
